@@ -141,10 +141,14 @@ fn craft_deferred_file(r: &mut Rng) -> Vec<u8> {
     // streams 10..10+m, their lengths are objects 40..40+m inside container 2
     let mut lens: Vec<(u32, usize)> = vec![];
     for i in 0..m {
-        let num = 10 + i as u32; let kind = r.below(5);
-        let data = if kind == 1 { vec![] } else { let n = 1 + r.usize(12); (0..n).map(|_| b'a' + r.below(26) as u8).collect::<Vec<u8>>() };
+        let num = 10 + i as u32; let mut kind = r.below(7);
+        // kinds 5, 6: share the Length object of an earlier stream (same data length) — legal, and the second
+        // resolution of the same reference must not look like a cycle
+        let share = if kind >= 5 && !lens.is_empty() { Some(*r.pick(&lens)) } else { None };
+        if kind >= 5 && share.is_none() { kind = 0; }
+        let data = if kind == 1 { vec![] } else { let n = match share { Some((_, l)) => l, None => 1 + r.usize(12) }; (0..n).map(|_| b'a' + r.below(26) as u8).collect::<Vec<u8>>() };
         offs.push((num, f.len()));
-        let lenref = match kind { 1 => "0".to_string(), 2 => format!("{} 0 R", 10 + r.usize(m)), 3 => "99 0 R".to_string(), _ => { lens.push((40 + i as u32, data.len())); format!("{} 0 R", 40 + i) } };
+        let lenref = match (kind, share) { (_, Some((lid, _))) => format!("{} 0 R", lid), (1, _) => "0".to_string(), (2, _) => format!("{} 0 R", 10 + r.usize(m)), (3, _) => "99 0 R".to_string(), _ => { lens.push((40 + i as u32, data.len())); format!("{} 0 R", 40 + i) } };
         f.extend_from_slice(format!("{} 0 obj\n<</Length {}>>\nstream\n", num, lenref).as_bytes());
         f.extend_from_slice(&data); f.extend_from_slice(b"\nendstream\nendobj\n");
     }
@@ -160,6 +164,59 @@ fn craft_deferred_file(r: &mut Rng) -> Vec<u8> {
     for (n, o) in &offs { rows.push(1); rows.extend_from_slice(&(*o as u16).to_be_bytes()); rows.extend_from_slice(&0u16.to_be_bytes()); index_arr.push_str(&format!("{} 1 ", n)); }
     for (k, (n, _)) in lens.iter().enumerate() { rows.push(2); rows.extend_from_slice(&2u16.to_be_bytes()); rows.extend_from_slice(&(k as u16).to_be_bytes()); index_arr.push_str(&format!("{} 1 ", n)); }
     f.extend_from_slice(format!("3 0 obj\n<</Type/XRef/Size 60/W[1 2 2]/Index[{}]/Root 1 0 R/Length {}>>\nstream\n", index_arr.trim_end(), rows.len()).as_bytes());
+    f.extend_from_slice(&rows); f.extend_from_slice(format!("\nendstream\nendobj\nstartxref\n{}\n%%EOF", xoff).as_bytes());
+    f
+}
+/// several streams that share ONE plain (uncompressed) `Length` object — legal; resolving the same reference for
+/// the second stream must not be mistaken for a reference cycle, on any worker and in any split of the work
+fn craft_shared_length_file(r: &mut Rng) -> (Vec<u8>, Vec<(u32, Vec<u8>)>) {
+    let m = 2 + r.usize(40); let len = 1 + r.usize(9);
+    let mut f = b"%PDF-1.4\n".to_vec(); let mut offs: Vec<(u32, usize)> = vec![]; let mut want = vec![];
+    offs.push((1, f.len())); f.extend_from_slice(b"1 0 obj\n<</Type/Catalog>>\nendobj\n");
+    let len_first = r.chance(1, 2);
+    if len_first { offs.push((2, f.len())); f.extend_from_slice(format!("2 0 obj\n{}\nendobj\n", len).as_bytes()); }
+    for i in 0..m {
+        let num = 3 + i as u32; let data: Vec<u8> = (0..len).map(|_| b'a' + r.below(26) as u8).collect();
+        offs.push((num, f.len()));
+        f.extend_from_slice(format!("{} 0 obj\n<</Length 2 0 R>>\nstream\n", num).as_bytes()); f.extend_from_slice(&data); f.extend_from_slice(b"\nendstream\nendobj\n");
+        want.push((num, data));
+    }
+    if !len_first { offs.push((2, f.len())); f.extend_from_slice(format!("2 0 obj\n{}\nendobj\n", len).as_bytes()); }
+    offs.sort();
+    let x = f.len();
+    f.extend_from_slice(format!("xref\n0 {}\n0000000000 65535 f \n", offs.len() + 1).as_bytes());
+    for (_, o) in &offs { f.extend_from_slice(format!("{:010} 00000 n \n", o).as_bytes()); }
+    f.extend_from_slice(format!("trailer\n<</Size {}/Root 1 0 R>>\nstartxref\n{}\n%%EOF", offs.len() + 1, x).as_bytes());
+    (f, want)
+}
+/// the same with object streams among the sharers: an object stream whose shared Length is not resolved while it
+/// is parsed has no content at that moment and loses its members
+fn craft_shared_length_objstm_file(r: &mut Rng) -> Vec<u8> {
+    let k = 1 + r.usize(30);
+    let content = b"50 0 77".to_vec(); let len = content.len();
+    let mut f = b"%PDF-1.5\n".to_vec(); let mut offs: Vec<(u32, usize)> = vec![];
+    offs.push((1, f.len())); f.extend_from_slice(b"1 0 obj\n<</Type/Catalog>>\nendobj\n");
+    offs.push((2, f.len())); f.extend_from_slice(format!("2 0 obj\n{}\nendobj\n", len).as_bytes());
+    let container = 3 + k as u32;
+    let place = r.usize(k + 1);     // the object stream sits at a random position among the plain sharers (numbers follow file order)
+    let mut num = 3u32;
+    for i in 0..=k {
+        offs.push((num, f.len()));
+        if i == place {
+            f.extend_from_slice(format!("{} 0 obj\n<</Type/ObjStm/N 1/First 5/Length 2 0 R>>\nstream\n", num).as_bytes()); f.extend_from_slice(&content);
+        } else {
+            f.extend_from_slice(format!("{} 0 obj\n<</Length 2 0 R>>\nstream\n", num).as_bytes()); f.extend((0..len).map(|_| b'a' + r.below(26) as u8));
+        }
+        f.extend_from_slice(b"\nendstream\nendobj\n");
+        num += 1;
+    }
+    let _ = container;
+    let cnum = 3 + place as u32;
+    let xnum = num; let xoff = f.len(); offs.push((xnum, xoff));
+    let mut rows: Vec<u8> = vec![]; let mut index_arr = String::new();
+    for (n, o) in &offs { rows.push(1); rows.extend_from_slice(&(*o as u16).to_be_bytes()); rows.extend_from_slice(&0u16.to_be_bytes()); index_arr.push_str(&format!("{} 1 ", n)); }
+    rows.push(2); rows.extend_from_slice(&(cnum as u16).to_be_bytes()); rows.extend_from_slice(&0u16.to_be_bytes()); index_arr.push_str("50 1");
+    f.extend_from_slice(format!("{} 0 obj\n<</Type/XRef/Size 60/W[1 2 2]/Index[{}]/Root 1 0 R/Length {}>>\nstream\n", xnum, index_arr, rows.len()).as_bytes());
     f.extend_from_slice(&rows); f.extend_from_slice(format!("\nendstream\nendobj\nstartxref\n{}\n%%EOF", xoff).as_bytes());
     f
 }
@@ -281,6 +338,53 @@ run in the no-default-features (sequential) build. Non-trivial = file with >= 2 
         let file = craft_deferred_file(&mut r);
         zero_independent(c, &file, "deferred", &mut zero_run);
         if i % 4 == 0 { order_independent(c, &file, "deferred", &mut pool_loads); } else { c.corr(format!("load {}", hex_tok(&file)), load_reply(&file)); }
+    }
+    // ---- parse history: loading files with too deeply nested objects (rejected) must not change what a later load
+    // ---- of a file nested exactly at the limit yields — on this thread and on the pool's workers
+    for i in 0..c.n(6, 40) {
+        let Some(mut r) = c.case("nesting_history", i) else { continue };
+        let nest_file = |depth: usize, tag: u32| -> Vec<u8> {
+            let mut f = b"%PDF-1.4\n".to_vec(); let o1 = f.len(); f.extend_from_slice(b"1 0 obj\n<</Type/Catalog>>\nendobj\n");
+            let o2 = f.len(); f.extend_from_slice(b"2 0 obj\n"); f.extend(std::iter::repeat(b'[').take(depth)); f.extend_from_slice(format!("{}", tag).as_bytes()); f.extend(std::iter::repeat(b']').take(depth)); f.extend_from_slice(b"\nendobj\n");
+            let x = f.len();
+            f.extend_from_slice(format!("xref\n0 3\n0000000000 65535 f \n{:010} 00000 n \n{:010} 00000 n \ntrailer\n<</Size 3/Root 1 0 R>>\nstartxref\n{}\n%%EOF", o1, o2, x).as_bytes());
+            f
+        };
+        let limit = 128usize;
+        let x = nest_file(limit - r.usize(3), 7);
+        let first = match load_with_order(&x, None) { Ok(d) => d, Err(e) => { c.oracle_fail("load-error", &format!("nesting_history: {}", e), json!({"file": hex(&x)})); continue; } };
+        c.corr(format!("load {}", hex_tok(&x)), load_reply(&x));
+        for k in 0..48 { let y = nest_file(limit + 1 + (k % 5), 9); let _ = guard(|| Document::load_mem(&y)); }
+        for rep in 0..3 {
+            match load_with_order(&x, None) {
+                Ok(d) => if d != first { c.oracle_fail("history-dependent", &format!("the same bytes load to a different document after other files (with too deeply nested objects) were loaded, repetition {}", rep), json!({"file": hex(&x)})); break; },
+                Err(e) => { c.oracle_fail("history-dependent", &e, json!({"file": hex(&x)})); break; }
+            }
+        }
+        c.count("nesting_history.cases");
+    }
+    // ---- streams sharing one Length object
+    for i in 0..c.n(40, 400) {
+        let Some(mut r) = c.case("shared_length", i) else { continue };
+        let (file, want) = craft_shared_length_file(&mut r);
+        match guard(|| Document::load_mem(&file)) {
+            Ok(Ok(d)) => for (num, data) in &want {
+                match d.objects.get(&(*num, 0)) { Some(Object::Stream(st)) if &st.content == data => {}, _ => { c.oracle_fail("shared-length", &format!("stream {} 0 sharing its Length object with other streams is not loaded with its content", num), json!({"file": hex(&file)})); break; } }
+            },
+            Ok(Err(e)) => c.oracle_fail("load-error", &format!("shared_length: {:?}", e), json!({"file": hex(&file)})),
+            Err((site, msg)) => c.oracle_fail(&format!("panic@{}", site), &msg, json!({"file": hex(&file)})),
+        }
+        if i % 4 == 0 { order_independent(c, &file, "shared_length", &mut pool_loads); } else { c.corr(format!("load {}", hex_tok(&file)), load_reply(&file)); }
+    }
+    for i in 0..c.n(40, 400) {
+        let Some(mut r) = c.case("shared_length_objstm", i) else { continue };
+        let file = craft_shared_length_objstm_file(&mut r);
+        match guard(|| Document::load_mem(&file)) {
+            Ok(Ok(d)) => if !matches!(d.objects.get(&(50, 0)), Some(Object::Integer(77))) { c.oracle_fail("shared-length", "the member of an object stream that shares its Length object with other streams is not loaded", json!({"file": hex(&file)})); },
+            Ok(Err(e)) => c.oracle_fail("load-error", &format!("shared_length_objstm: {:?}", e), json!({"file": hex(&file)})),
+            Err((site, msg)) => c.oracle_fail(&format!("panic@{}", site), &msg, json!({"file": hex(&file)})),
+        }
+        if i % 4 == 0 { order_independent(c, &file, "shared_length_objstm", &mut pool_loads); } else { c.corr(format!("load {}", hex_tok(&file)), load_reply(&file)); }
     }
     c.extra.insert("completion_orders_run".into(), json!(zero_run));
     // ---- witness F-C08-a: the same number in two containers -> two orders, two documents
